@@ -228,6 +228,8 @@ def run(ctx):
     ctx.rule = ("random valid individuals (1-6 qubits, 1-6 layers, 30% parameterless layers, a quarter from the implementation's own random_individual) x one operation: "
                 "remove_layers k in [-1, L+1]; change_parameter_values with the right count or off by 1/3; change_layer_parameter_values with layer ids in [-2L, 2L) and right/wrong counts (+ the getter); "
                 "add_random_layers with n_layers in {-1,0,1..4}, zero or random initialisation, followed by remove_layers of the same count; distinct = distinct (individual, operation, arguments); all cases non-trivial")
+    if not rnglog.selftest():
+        ctx.violation("correspondence", "rnglog-selftest", "the logging Random does not reproduce random.Random on this interpreter (vlib/rnglog.py)")
     cases = []
     cdir = core.ROOT / "corpus" / "C16"
     for f in sorted(cdir.glob("*.json")) if cdir.exists() else []:
